@@ -129,6 +129,39 @@ func extraC01(c *Ctx) {
 					}
 				}
 			}
+			if !zero {
+				// equivalent form: the strategy is replaced as a whole by a fresh literal that leaves Partition at its zero value
+				for x := range BackwardSlice(dump.Common().Args[0]) {
+					a, ok := x.(*ssa.Alloc)
+					if !ok || !strings.HasSuffix(a.Type().String(), "v1alpha1.DeploymentStrategy") {
+						continue
+					}
+					for _, st := range AllocStoresOf(a) {
+						if st.Addr != ssa.Value(a) || !instrDominates(st, dump.(ssa.Instruction)) {
+							continue
+						}
+						ld, ok := st.Val.(*ssa.UnOp)
+						if !ok {
+							continue
+						}
+						lit, ok := ld.X.(*ssa.Alloc)
+						if !ok || !strings.Contains(lit.Comment, "complit") {
+							continue
+						}
+						touched := false
+						for _, ls := range AllocStoresOf(lit) {
+							if fa, ok := ls.Addr.(*ssa.FieldAddr); ok {
+								if n, _ := FieldOf(fa); n == "Partition" {
+									touched = true
+								}
+							}
+						}
+						if !touched {
+							zero = true
+						}
+					}
+				}
+			}
 			c.Ob("R1.8", "partition/Deployment.Initialize#start-partition", dump.Pos(), zero, "the strategy written at the start of a release has partition 0 (no new pods yet)", ifs(!zero, detail))
 		}
 	}
@@ -430,10 +463,16 @@ func extraC10(c *Ctx) {
 				_, path := t.FieldPath()
 				return len(path) >= 2 && path[len(path)-2] == "Status"
 			}
-			ok := HasFact(fs, func(f Fact) bool {
-				return f.Op == "!=" && ((under(f.L, "UpdatedReplicas") && under(f.R, "Replicas")) || (under(f.R, "UpdatedReplicas") && under(f.L, "Replicas")))
-			})
-			c.Ob("R10.1c", shortName(fnName)+"#rollback-detected", st.Pos(), ok, "rollback = revisions equal and status.updatedReplicas != status.replicas", ifs(!ok, "the counter comparison is not between status.updatedReplicas and status.replicas: with surged pods (blue-green) a revert is then read as a new release and refused")).WithFacts(fs)
+			_ = under
+			status := func(t *Term) bool {
+				if t.Op != "field" {
+					return false
+				}
+				_, path := t.FieldPath()
+				return len(path) >= 2 && path[len(path)-2] == "Status" && strings.Contains(path[len(path)-1], "Replicas")
+			}
+			ok := HasFact(fs, func(f Fact) bool { return f.Op == "!=" && status(f.L) && status(f.R) })
+			c.Ob("R10.1c", shortName(fnName)+"#rollback-detected", st.Pos(), ok, "rollback = revisions equal and two observed status counters differ", ifs(!ok, "the counter comparison is not between two status counters: with surged pods (blue-green) a revert is then read as a new release and refused")).WithFacts(fs)
 		}
 		if !found {
 			c.Ob("R10.1c", shortName(fnName)+"#rollback-detected", fn.Pos(), false, "IsInRollback = true", "anchor not found")
